@@ -576,7 +576,9 @@ func wireGenOp(k *kernel.Kernel, token string, proto int) *wireOp {
 	case "query":
 		op.stmt = "ECHO '" + token + "'"
 		if tp.Chance(1, 6) {
-			op.stmt += " /*" + strings.Repeat("p", 5000) + "*/"
+			// (one in ten of them well past a megabyte: a body of any size up to the frame
+			// limit must arrive as it was built, compressed or not)
+			op.stmt += " /*" + strings.Repeat("p", []int{5000, 5000, 5000, 5000, 5000, 5000, 5000, 70000, 300000, 1200000}[tp.Next(10)]) + "*/"
 		}
 	case "exec":
 		n := tp.Next(5)
